@@ -18,7 +18,8 @@ CONFIG = dict(
           "stacks of natural and vocabulary pickles); per-pickle severities are computed independently on "
           "separately parsed parts and compared with: is_likely_safe(path), the checked loader at all six "
           "thresholds (raise/return and info['severity']), the CLI --check-safety exit status with and "
-          "without --json-output / --print-results, every JSON document appended to the report, "
+          "without --json-output / --print-results - file given by path, on standard input fed by a pipe, redirected from a "
+          "file, and as the default PICKLE_FILE - every JSON document appended to the report, "
           "severity == max over findings; plus the full 36-pair x 6-operator Severity table, max(), sorted() "
           "and `in`.  A case is one distinct (file bytes, CLI option set); non-trivial = the file holds a "
           "pickle above LIKELY_SAFE or more than one pickle."),
@@ -191,13 +192,37 @@ def check_file(ctx, mods, label, parts, opts):
             argv += ["--json-output", jpath]
         if opts.get("print"):
             argv += ["--print-results"]
-        argv.append(path)
+        via = opts.get("via", "path")
+        import sys as _sys
+        old_stdin, stdin_stream = _sys.stdin, None
+        if via == "path":
+            argv.append(path)
+        else:
+            # the CLI's default input: standard input - fed by a pipe (not seekable) or redirected from a file
+            if via == "stdin-pipe" and len(data) < 60000:
+                rfd, wfd = os.pipe()
+                os.write(wfd, data)
+                os.close(wfd)
+                stdin_stream = os.fdopen(rfd, "rb")
+            else:
+                stdin_stream = open(path, "rb")
+            _sys.stdin = io.TextIOWrapper(stdin_stream, encoding="latin-1")
+            if via != "stdin-default":
+                argv.append("-")
         out, err = io.StringIO(), io.StringIO()
-        with contextlib.redirect_stdout(out), contextlib.redirect_stderr(err):
-            try:
-                rc = cli.main(argv)
-            except SystemExit as e:
-                rc = e.code
+        try:
+            with contextlib.redirect_stdout(out), contextlib.redirect_stderr(err):
+                try:
+                    rc = cli.main(argv)
+                except SystemExit as e:
+                    rc = e.code
+        finally:
+            _sys.stdin = old_stdin
+            if stdin_stream is not None:
+                try:
+                    stdin_stream.close()
+                except Exception:
+                    pass
         agg.count("cli_runs")
         want_rc = 0 if all(s.name == "LIKELY_SAFE" for s in sevs) else 1
         if rc != want_rc:
@@ -246,6 +271,7 @@ def stacks(ctx):
                 continue
             parts = [FAMILIES[c] for c in combo]
             yield "fam-" + "+".join(combo), parts, optsets[idx % 4]
+            yield "fam-" + "+".join(combo), parts, dict(optsets[idx % 4], via=("stdin-pipe", "stdin-file", "stdin-default")[idx % 3])
             if k <= 2:
                 for o in optsets:
                     yield "fam-" + "+".join(combo), parts, o
@@ -265,7 +291,7 @@ def stacks(ctx):
             continue
         rng = asm.rng_for(ctx.seed, f"c10s{i}")
         parts = [rng.choice(pool) for _ in range(rng.randint(1, 5))]
-        yield "rand", parts, rng.choice(optsets)
+        yield "rand", parts, dict(rng.choice(optsets), via=rng.choice(["path", "path", "stdin-pipe", "stdin-file", "stdin-default"]))
 
 
 def setup():
